@@ -302,33 +302,42 @@ def on_discontinuity(g, path_a, path_b, sp, d, fpt, spherical):
     return all(jumps)
 
 
-def collinear_trench_differs(g, w, path_a, path_b, sp, d, fpt):
-    """is there a slab or fault with three consecutive (nearly) collinear trench coordinates whose distance_to_plane at the query differs between the two worlds?
-    (Recorded finding of C06/C10: on collinear coordinates the trench curve overshoots the interior coordinate and turns back; at the turning point the curve's
-    velocity vanishes, which is a spurious stationary point of the closest-point search - whether the search lands on it is decided by rounding, i.e. by the frame.)"""
-    names = []
-    for f in w.get("features", []):
-        if f.get("model") in ("subducting plate", "fault") and f.get("name"):
-            cs = f["coordinates"]
-            for i in range(len(cs) - 2):
-                ax, ay = cs[i + 1][0] - cs[i][0], cs[i + 1][1] - cs[i][1]
-                bx, by = cs[i + 2][0] - cs[i + 1][0], cs[i + 2][1] - cs[i + 1][1]
-                if abs(ax * by - ay * bx) <= 1e-6 * math.hypot(ax, ay) * math.hypot(bx, by):
-                    names.append(f["name"]); break
-    if not names:
+def collinear_trench_differs(g, w, w2, sp, d, fpt, spherical):
+    """is there a slab or fault with three consecutive (nearly) collinear trench coordinates whose closest-trench-point differs between the two worlds?
+    (Recorded finding of C06/C10: on collinear coordinates the side tests that orient the control points of the trench curve are decided by the sign of a cross product
+    that is zero - after a rotation it is rounding noise - so the two frames can build DIFFERENT curves (a control point flipped), or the same overshooting curve on
+    whose turning point the closest-point search lands in one frame only.)  Asked of the Bezier kernel directly, on the coordinates of each such feature in both frames."""
+    lines, n = [], 0
+    for f, f2 in zip(w.get("features", []), w2.get("features", [])):
+        if f.get("model") not in ("subducting plate", "fault"):
+            continue
+        cs = f["coordinates"]
+        col = False
+        for i in range(len(cs) - 2):
+            ax, ay = cs[i + 1][0] - cs[i][0], cs[i + 1][1] - cs[i][1]
+            bx, by = cs[i + 2][0] - cs[i + 1][0], cs[i + 2][1] - cs[i + 1][1]
+            if abs(ax * by - ay * bx) <= 1e-6 * math.hypot(ax, ay) * math.hypot(bx, by):
+                col = True; break
+        if not col:
+            continue
+        k = (math.pi / 180.0) if spherical else 1.0
+        for (coords, q) in ((cs, sp), (f2["coordinates"], list(fpt(sp[0], sp[1])))):
+            vals = [v * k for c in coords for v in c] + [q[0] * k, q[1] * k]
+            lines.append("kbez %d %d %s" % (int(spherical), len(coords), " ".join(fhex(v) for v in vals)))
+        n += 1
+    if not n:
         return False
-    lines = ["world a %s -" % path_a, "world b %s -" % path_b]
-    pa, pb = to3(g, sp, d), to3(g, list(fpt(sp[0], sp[1])), d)
-    for nm in names:
-        lines.append("dist a %s %s %s" % (nm.replace(" ", "~"), " ".join(fhex(v) for v in pa), fhex(d)))
-        lines.append("dist b %s %s %s" % (nm.replace(" ", "~"), " ".join(fhex(v) for v in pb), fhex(d)))
     rc, out, err = proto.run_harness(lines)
     if rc != 0 or len(out) != len(lines):
         return False
-    for k in range(len(names)):
-        a, b = parse_answer(out[2 + 2 * k]), parse_answer(out[3 + 2 * k])
-        if a[0] != b[0] or (a[0] == "ok" and any(not close_vals(x, y) for x, y in zip(a[1], b[1]))):
+    for i in range(n):
+        a, b = parse_answer(out[2 * i]), parse_answer(out[2 * i + 1])
+        if a[0] != b[0]:
             return True
+        if a[0] == "ok":
+            da, db = abs(a[1][0]), abs(b[1][0])
+            if (math.isinf(da) != math.isinf(db)) or (not math.isinf(da) and abs(da - db) > 1e-9 * max(1.0, da, db)) or a[1][2] != b[1][2] or abs(a[1][1] - b[1][1]) > 1e-6:
+                return True
     return False
 
 
@@ -477,9 +486,9 @@ def oracle(seed, tier):
                     nonunique = w2 is not w and triangulations_differ(p0, p2_, fpt, spherical)
                     if nonunique:
                         bad += " [the two worlds triangulate a depth surface differently: its Delaunay triangulation is not unique]"
-                    collinear = (not nonunique) and w2 is not w and collinear_trench_differs(g, w, p0, p2_, sp, d, fpt)
+                    collinear = (not nonunique) and w2 is not w and collinear_trench_differs(g, w, w2, sp, d, fpt, spherical)
                     if collinear:
-                        bad += " [a trench with three collinear coordinates: distance_to_plane of that feature differs between the two frames]"
+                        bad += " [a trench with three collinear coordinates: its closest-trench-point differs between the two frames]"
                     viol.append({"probe": "depth-surface-triangulation-not-unique" if nonunique else ("collinear-trench-joint" if collinear else "motion:%s" % kind),
                                  "what": "%s world: %s under %s at surface position %s depth %g" % ("spherical" if spherical else "cartesian", bad, name, [round(v, 6) for v in sp], d),
                                  "world_json": w, "moved_world_json": w2, "world": p0, "moved_world": os.path.join(wdir, "m_%d_%d.wb" % (wi, mi)), "motion": name,
